@@ -31,6 +31,30 @@ def to_smt2(axioms, assumptions, goal):
     return txt
 
 
+def has_quantifier(t, _seen=None):
+    if _seen is None:
+        _seen = set()
+    if t.get_id() in _seen:
+        return False
+    _seen.add(t.get_id())
+    if z3.is_quantifier(t):
+        return True
+    return any(has_quantifier(c, _seen) for c in t.children())
+
+
+def to_smt2_relaxed(axioms, assumptions, goal):
+    "the same query without the quantified assumptions: unsat here implies unsat of the full query; sat is only a candidate"
+    from .ops import DEFAULT_AXIOMS
+    keep = [a for a in list(DEFAULT_AXIOMS) + list(axioms) + list(assumptions) if not has_quantifier(a)]
+    s = z3.Solver()
+    for a in keep:
+        s.add(a)
+    s.add(z3.Not(goal))
+    txt = s.to_smt2()
+    txt = re.sub(r"\(_ ([A-Za-z_][A-Za-z_0-9]*) 0\)", r"\1", txt)
+    return txt
+
+
 def uses_strings(txt):
     return "String" in txt or "str." in txt
 
